@@ -355,6 +355,15 @@ where
             }
         }
 
+        // The productions cfgrammar itself adds (the start rule's and, for Eco grammars with
+        // implicit tokens, those of the two implicit rules) sit after the AST's productions:
+        // they have no source text and no action, but `prod_span`, `action` and `action_span`
+        // must still answer for them.
+        let mut prod_spans: Vec<Span> = ast.prods.iter().map(|prod| prod.prod_span).collect();
+        prod_spans.resize(prods.len(), Span::new(0, 0));
+        actions.resize(prods.len(), None);
+        action_spans.resize(prods.len(), None);
+
         let avoid_insert = if let Some(ai) = &ast.avoid_insert {
             let mut aiv = Vob::from_elem(false, token_names.len());
             for n in ai.keys() {
@@ -387,7 +396,7 @@ where
                 .map(|x| x.unwrap().into_boxed_slice())
                 .collect(),
             prod_precs: prod_precs.into_iter().map(Option::unwrap).collect(),
-            prod_spans: ast.prods.iter().map(|prod| prod.prod_span).collect(),
+            prod_spans: prod_spans.into_boxed_slice(),
             implicit_rule: implicit_rule.map(|x| rule_map[&x]),
             actions: actions.into_boxed_slice(),
             action_spans: action_spans.into_boxed_slice(),
